@@ -13,13 +13,15 @@ import (
 // name of a global or function returns an entry located at the declaration.
 
 type c19decl struct {
-	full  string // name as the outline spells it, without the parameter list: "x", "t.f", "t:m", "T.k"
-	short string // bare identifier
-	loc   lexer.Location
-	fn    bool
-	local bool // declared through a local (workspace symbols are only required for globals and functions)
-	nested bool // function member of a table that is itself a field (u.v.w)
-	field  bool // function value of a table-constructor field (T = { k = function ... })
+	full       string // name as the outline spells it, without the parameter list: "x", "t.f", "t:m", "T.k"
+	short      string // bare identifier
+	loc        lexer.Location
+	fn         bool
+	local      bool // declared through a local (workspace symbols are only required for globals and functions)
+	nested     bool // function member of a table that is itself a field (u.v.w)
+	field      bool // function value of a table-constructor field (T = { k = function ... })
+	deep       bool // local function declared below the top level
+	inGlobalFn bool // ... inside the body of a global function or of a function member of a global table
 }
 
 func c19collect(b *ast.Block, depth int, localNames map[string]bool, out *[]c19decl) {
@@ -85,6 +87,61 @@ func c19collect(b *ast.Block, depth int, localNames map[string]bool, out *[]c19d
 			}
 		case *ast.DoStat:
 			c19collect(st.Block, depth+1, localNames, out)
+		}
+	}
+}
+
+// c19nested collects the functions declared below the top level: local functions and global functions
+// inside function bodies and control blocks (the top level itself is covered by c19collect).
+func c19nested(b *ast.Block, depth int, inGlobalFn bool, localNames map[string]bool, out *[]c19decl) {
+	if b == nil {
+		return
+	}
+	body := func(e ast.Exp, global bool) {
+		if fd, ok := e.(*ast.FuncDefExp); ok {
+			c19nested(fd.Block, depth+1, inGlobalFn || global, localNames, out)
+		}
+	}
+	for _, s := range b.Stats {
+		switch st := s.(type) {
+		case *ast.LocalFuncDefStat:
+			if depth > 0 {
+				*out = append(*out, c19decl{full: st.Name, short: st.Name, loc: st.NameLoc, fn: true, local: true, deep: true, inGlobalFn: inGlobalFn})
+			}
+			c19nested(st.Exp.Block, depth+1, inGlobalFn, localNames, out)
+		case *ast.LocalVarDeclStat:
+			for _, e := range st.ExpList {
+				body(e, false)
+			}
+		case *ast.AssignStat:
+			for i, e := range st.ExpList {
+				global := false
+				if i < len(st.VarList) {
+					switch v := st.VarList[i].(type) {
+					case *ast.NameExp:
+						global = !localNames[v.Name]
+					case *ast.TableAccessExp:
+						if pn, ok := v.PrefixExp.(*ast.NameExp); ok {
+							global = !localNames[pn.Name]
+						}
+					}
+				}
+				body(e, global)
+			}
+		case *ast.DoStat:
+			c19nested(st.Block, depth+1, inGlobalFn, localNames, out)
+		case *ast.WhileStat:
+			c19nested(st.Block, depth+1, inGlobalFn, localNames, out)
+		case *ast.RepeatStat:
+			c19nested(st.Block, depth+1, inGlobalFn, localNames, out)
+		case *ast.ForNumStat:
+			c19nested(st.Block, depth+1, inGlobalFn, localNames, out)
+		case *ast.ForInStat:
+			c19nested(st.Block, depth+1, inGlobalFn, localNames, out)
+		case *ast.IfStat:
+			for _, bb := range st.Blocks {
+				c19nested(bb, depth+1, inGlobalFn, localNames, out)
+			}
 		}
 	}
 }
@@ -160,6 +217,9 @@ var c19templates = []string{
 	/* 3 */ "do\n local H = {}\n function H.\x01s() end\nend\nfunction top() end\n",
 	/* 4 */ "local u = { v = { \x01w = function() end } }\nG = { h = { \x02i = function() end } }\n",
 	/* 5 */ "\x01a = 1\n\x02a = 2\nlocal \x03a = 3\nlocal \x04a = 4\n",
+	// functions below the top level, in sibling scopes with different numbers of sub-scopes
+	/* 6 */ "local function \x01c(x)\n if x then\n  return 1\n else\n  return 2\n end\nend\nlocal function \x02b()\n local function \x03h() end\n local function \x04i() end\nend\n",
+	/* 7 */ "function \x01o()\n local function \x02p()\n  local function \x03q() end\n end\n while true do\n  local function \x04r() end\n end\nend\nlocal function \x05s()\n for i = 1, 2 do\n  local function \x06t() end\n end\nend\n",
 }
 
 func VerifRun_C19() {
@@ -168,7 +228,9 @@ func VerifRun_C19() {
 	src := vpInstantiate(c19templates[ti], "n")
 	p, fs := vpProject([]string{file}, [][]byte{src})
 	var decls []c19decl
-	c19collect(fs[0].FileResult.Block, 0, map[string]bool{}, &decls)
+	localNames := map[string]bool{}
+	c19collect(fs[0].FileResult.Block, 0, localNames, &decls)
+	c19nested(fs[0].FileResult.Block, 0, false, localNames, &decls)
 	var flat []common.FileSymbolStruct
 	tree := p.FindFileAllSymbol(file)
 	c19flatten(tree, &flat)
@@ -201,6 +263,9 @@ func VerifRun_C19() {
 		class := ""
 		if d.nested {
 			class = "C19-nested-table-function"
+		}
+		if d.deep {
+			class = "C19-nested-function-outline"
 		}
 		for _, d2 := range decls {
 			if d2.full == d.full && !locEq(d2.loc, d.loc) {
@@ -243,7 +308,9 @@ func VerifRun_C19ws() {
 	srcs := [][]byte{t, []byte("other = 1\n")}
 	p, fs := vpProject(files, srcs)
 	var decls []c19decl
-	c19collect(fs[0].FileResult.Block, 0, map[string]bool{}, &decls)
+	localNames := map[string]bool{}
+	c19collect(fs[0].FileResult.Block, 0, localNames, &decls)
+	c19nested(fs[0].FileResult.Block, 0, false, localNames, &decls)
 	for _, d := range decls {
 		if d.local && !d.fn {
 			continue // only globals and functions are required to be findable
@@ -251,6 +318,9 @@ func VerifRun_C19ws() {
 		class := ""
 		if d.nested {
 			class = "C19-nested-table-function"
+		}
+		if d.inGlobalFn {
+			class = "C19-local-function-in-global-function"
 		}
 		verifReach("query")
 		for _, q := range []string{d.full, d.short} {
